@@ -854,3 +854,35 @@ m('C11', 'kernel_peeks_first_element', 'src/core/map_fil_cnt.rs', """    let tas
     let (_num_spawned, count) = Runner::reduce(params, ParTask::Collect, &iter, &task, reduce);
 
     head + count.unwrap_or(0)""", 'C11-PULL')
+m('C02', 'find_predicate_narrowed', 'src/core/map_fil_find.rs', """.find(|x| filter(&x.1))
+                    .map(""", """.find(|x| filter(&x.1) && x.0 % 2 == 0)
+                    .map(""", 'C02-ACCEPT')
+m('C09', 'seq_find_step_accepts_rejected', 'src/core/map_fil_find.rs', """        .find_map(|x| match filter(&x.1) {
+            false => None,
+            true => Some(x),
+        })""", """        .find_map(|x| match filter(&x.1) || x.0 == 0 {
+            false => None,
+            true => Some(x),
+        })""", 'C02-ACCEPT')
+m('C09', 'seq_filtermap_find_ignores_filter_for_first', 'src/core/filtermap_fil_find.rs', """                match filter(&value) {
+                    false => None,
+                    true => Some((x.0, value)),
+                }
+            }
+        })
+}""", """                match filter(&value) || x.0 == 0 {
+                    false => None,
+                    true => Some((x.0, value)),
+                }
+            }
+        })
+}""", 'C02-ACCEPT')
+b('C02', 'find_predicate_by_name', 'src/core/map_fil_find.rs', """.find(|x| filter(&x.1))
+                    .map(""", """.find(|x| { let accepted = filter(&x.1); accepted })
+                    .map(""")
+m('C03', 'reduce_task_filter_narrowed', 'src/core/map_fil_red.rs', "let x = chunk.map(map).filter(filter).reduce(reduce);",
+  "let x = chunk.map(map).enumerate().filter(|x| filter(&x.1) && x.0 != 7).map(|x| x.1).reduce(reduce);", 'C05-ACCEPT')
+m('C07', 'col_x_task_filter_widened', 'src/core/map_fil_col_x.rs', "collected.extend(chunk.map(&map).filter(&filter));",
+  "collected.extend(chunk.map(&map).enumerate().filter(|x| filter(&x.1) || x.0 == 3).map(|x| x.1));", 'C05-ACCEPT')
+b('C07', 'col_x_task_filter_through_closure', 'src/core/map_fil_col_x.rs', "collected.extend(chunk.map(&map).filter(&filter));",
+  "collected.extend(chunk.map(&map).filter(|x| { let keep = filter(x); keep }));")
